@@ -6,7 +6,7 @@
    the fault engine evaluates the property on the real store. *)
 From Coq Require Import List NArith Bool.
 From Feox Require Import Model.Device Proofs.CrashProofs.
-From Feox Require Model.FreeSpace Proofs.FreeSpaceProofs Model.FailPath Proofs.FailPathProofs Model.Gate Proofs.GateProofs.
+From Feox Require Model.FreeSpace Proofs.FreeSpaceProofs Model.FailPath Proofs.FailPathProofs Model.Gate Proofs.GateProofs Model.FailBatches Proofs.FailBatchesProofs.
 Import ListNotations.
 Local Open Scope N_scope.
 
@@ -257,11 +257,65 @@ Check gate_false_means_successor_not_durable :
 Print Assumptions gate_false_means_successor_not_durable.
 
 Theorem gate_memo_stays_sound :
-  forall l e, GateProofs.memo_ok l -> GateProofs.memo_ok (GateProofs.gstep l e).
+  forall l e, GateProofs.memo_ok l -> GateProofs.memo_ok (GateProofs.gstep l e)
+
+(* ---- a shard holding more entries than one allocation-journal transaction names
+   (Model/FailBatches.v: flush_worker_shards cuts the pass into batches of
+   ALLOCATION_JOURNAL_MAX_ENTRIES, stops at the first batch that fails and puts back what that batch
+   returns followed by every entry not yet attempted).  For every fault oracle, every sequence of
+   inserts and flushes, any queue length: Ok only when nothing is left and the device is not
+   poisoned; whatever the answer, every queued entry is afterwards published or still queued,
+   none is lost and none counted twice; a poisoned device never answers Ok again ---- *).
 Proof. exact GateProofs.memo_stays_sound. Qed.
 Check gate_memo_stays_sound :
-  forall l e, GateProofs.memo_ok l -> GateProofs.memo_ok (GateProofs.gstep l e).
+  forall l e, GateProofs.memo_ok l -> GateProofs.memo_ok (GateProofs.gstep l e)
+
+(* ---- a shard holding more entries than one allocation-journal transaction names
+   (Model/FailBatches.v: flush_worker_shards cuts the pass into batches of
+   ALLOCATION_JOURNAL_MAX_ENTRIES, stops at the first batch that fails and puts back what that batch
+   returns followed by every entry not yet attempted).  For every fault oracle, every sequence of
+   inserts and flushes, any queue length: Ok only when nothing is left and the device is not
+   poisoned; whatever the answer, every queued entry is afterwards published or still queued,
+   none is lost and none counted twice; a poisoned device never answers Ok again ---- *).
 Print Assumptions gate_memo_stays_sound.
+
+Theorem batched_flush_is_honest_under_any_failures :
+  forall fault d f cs,
+  d < FreeSpace.U64 -> FreeSpace.initialize d = FreeSpace.FOk f ->
+  let st := FailBatchesProofs.pcalls fault (FailPath.finit f) cs in
+  forall st' r, FailBatches.pflush fault st = (st', r) ->
+  (r = FailPath.ROk -> FailPath.f_queue st' = [] /\ FailPath.f_poison st' = false) /\
+  (exists pub, FailPath.f_durable st' = pub ++ FailPath.f_durable st /\
+               (forall i, In i (FailBatchesProofs.ids (FailPath.f_queue st)) <->
+                          In i (map fst pub) \/ In i (FailBatchesProofs.ids (FailPath.f_queue st'))) /\
+               (length pub + length (FailPath.f_queue st') = length (FailPath.f_queue st))%nat) /\
+  (FailPath.f_poison st = true -> FailPath.f_poison st' = true /\ r <> FailPath.ROk).
+Proof. exact FailBatchesProofs.batched_flush_is_honest. Qed.
+Check batched_flush_is_honest_under_any_failures :
+  forall fault d f cs,
+  d < FreeSpace.U64 -> FreeSpace.initialize d = FreeSpace.FOk f ->
+  let st := FailBatchesProofs.pcalls fault (FailPath.finit f) cs in
+  forall st' r, FailBatches.pflush fault st = (st', r) ->
+  (r = FailPath.ROk -> FailPath.f_queue st' = [] /\ FailPath.f_poison st' = false) /\
+  (exists pub, FailPath.f_durable st' = pub ++ FailPath.f_durable st /\
+               (forall i, In i (FailBatchesProofs.ids (FailPath.f_queue st)) <->
+                          In i (map fst pub) \/ In i (FailBatchesProofs.ids (FailPath.f_queue st'))) /\
+               (length pub + length (FailPath.f_queue st') = length (FailPath.f_queue st))%nat) /\
+  (FailPath.f_poison st = true -> FailPath.f_poison st' = true /\ r <> FailPath.ROk).
+Print Assumptions batched_flush_is_honest_under_any_failures.
+
+Theorem unscrubbed_extents_are_never_free_over_batches :
+  forall fault d f cs x b,
+  d < FreeSpace.U64 -> FreeSpace.initialize d = FreeSpace.FOk f ->
+  let st := FailBatchesProofs.pcalls fault (FailPath.finit f) cs in
+  In x (FailPath.f_maydata st) -> FailPathProofs.blk_in b x -> ~ FreeSpaceProofs.free (FailPath.f_fs st) b.
+Proof. exact FailBatchesProofs.unscrubbed_extents_are_never_free_batched. Qed.
+Check unscrubbed_extents_are_never_free_over_batches :
+  forall fault d f cs x b,
+  d < FreeSpace.U64 -> FreeSpace.initialize d = FreeSpace.FOk f ->
+  let st := FailBatchesProofs.pcalls fault (FailPath.finit f) cs in
+  In x (FailPath.f_maydata st) -> FailPathProofs.blk_in b x -> ~ FreeSpaceProofs.free (FailPath.f_fs st) b.
+Print Assumptions unscrubbed_extents_are_never_free_over_batches.
 (* non-vacuity of the failure-handling theorems: three inserts on a 64-block device; the record
    write fails three times (calls 2, 3, 4: the first pwrite of each attempt), the scrub goes through
    and the second flush publishes everything; with call 5 failing too (the scrub's intent write) the
@@ -306,4 +360,20 @@ Example gate_waits_for_the_end_of_the_chain :
   fst (Gate.gate chain 0) = false /\
   Gate.gate (GateProofs.gstep chain (GateProofs.GPublish 2 40)) 0 =
     (true, [Gate.mkgn 16 0 (Some 1%nat) true; Gate.mkgn 0 0 (Some 2%nat) true; Gate.mkgn 40 1 None false]).
+Proof. vm_compute. split; reflexivity. Qed.
+(* non-vacuity for the batched pass: 1030 one-block entries; without failures everything is
+   published in two transactions; with the first device call of the second batch failing, the first
+   1024 stay published, the other six stay queued and their reservations are given back *)
+Example two_batches :
+  match FreeSpace.initialize (8192 * 4096) with
+  | FreeSpace.FOk f =>
+      let cs := map (fun i => FailPathProofs.CInsert (N.of_nat i + 1) 1) (seq 0 1030) in
+      let run fault :=
+        let st := FailBatchesProofs.pcalls fault (FailPath.finit f) cs in
+        let '(st', r) := FailBatches.pflush fault st in
+        (r, length (FailPath.f_queue st'), length (FailPath.f_durable st'), FailPath.f_usage st') in
+      run (fun _ => false) = (FailPath.ROk, 0%nat, 1030%nat, 1030) /\
+      run (fun i => i =? 1030) = (FailPath.RIo, 6%nat, 1024%nat, 1024)
+  | _ => False
+  end.
 Proof. vm_compute. split; reflexivity. Qed.
